@@ -39,7 +39,7 @@ func VerifAppendDecimal() {
 	dec := vRange("dec", vParam("DECMIN", 0), vParam("DEC", 2))
 	p0 := vByte("p0")
 	var dst []byte
-	if vRange("cap", 0, 1) == 0 {
+	if vRange("cap", 0, vParam("CAP", 1)) == 0 {
 		dst = []byte{p0}
 	} else {
 		dst = append(make([]byte, 0, 64), p0)
